@@ -47,3 +47,11 @@ Print Assumptions C02_push_promise_block_is_contiguous.
 Print Assumptions C02_header_fragments_fit_and_add_up.
 Print Assumptions C02_ping_appends_one_ping.
 Print Assumptions C02_close_connection_appends_one_goaway.
+
+(* over EVERY history of calls and received frames the peer's MAX_FRAME_SIZE in force stays >= 2^14 (every value ever queued for the
+   peer's settings passed validation): the fixed-size frames the library emits on its own always fit *)
+From H2 Require Import Proofs.MfsInv.
+Theorem C02_peer_frame_size_limit_never_below_the_minimum :
+  forall cfg os, 16384 <= c_max_out_frame (run (conn_new cfg) os).
+Proof. exact frame_size_limit_after_any_history. Qed.
+Print Assumptions C02_peer_frame_size_limit_never_below_the_minimum.
